@@ -146,3 +146,59 @@ func (cs *cornerSpace) decode(idx int) ScoreCase {
 	}
 	return ScoreCase{Ver: cs.vi, A: a}
 }
+
+// windowSpace: every window of w consecutive metrics (table order = the order in which the packages pack them
+// into bytes) x every combination of their values, all other metrics taken from one of three backgrounds
+// (every metric at its first value / at its last value / mixed). Whatever depends on the joint content of one
+// or two adjacent bytes of the packed object - a table indexed by a byte, a mask that spans a byte boundary - is
+// a function of at most w adjacent metrics, and is therefore walked completely.
+type windowSpace struct {
+	vi     int
+	w      int
+	starts []int // first case index of each (window, background)
+	n      int
+}
+
+func newWindowSpace(vi, w int) *windowSpace {
+	v := spec.Versions[vi]
+	ws := &windowSpace{vi: vi, w: w}
+	if w > len(v.Metrics) {
+		ws.w = len(v.Metrics)
+	}
+	for s := 0; s+ws.w <= len(v.Metrics); s++ {
+		prod := 1
+		for _, m := range v.Metrics[s : s+ws.w] {
+			prod *= len(m.Vals)
+		}
+		for bg := 0; bg < 3; bg++ {
+			ws.starts = append(ws.starts, ws.n)
+			ws.n += prod
+		}
+	}
+	return ws
+}
+
+func (ws *windowSpace) size() int { return ws.n }
+
+func (ws *windowSpace) assignment(idx int) spec.Assignment {
+	v := spec.Versions[ws.vi]
+	// locate (window, background)
+	lo, hi := 0, len(ws.starts)-1
+	for lo < hi {
+		mid := (lo + hi + 1) / 2
+		if ws.starts[mid] <= idx {
+			lo = mid
+		} else {
+			hi = mid - 1
+		}
+	}
+	win, bg := lo/3, lo%3
+	r := idx - ws.starts[lo]
+	a := background(v, []int{0, 1, 3}[bg])
+	for i := win + ws.w - 1; i >= win; i-- {
+		m := v.Metrics[i]
+		a[m.Abv] = m.Vals[r%len(m.Vals)]
+		r /= len(m.Vals)
+	}
+	return a
+}
